@@ -9,7 +9,7 @@ REGISTRY = {
                             "(36801 calls, 4345 accepted by the interpreter itself); also validates the pybind / accepts specification against real calls")],
         trusted=["inspect.signature returns a well-formed parameter list matching the function (kinds ordered, one */** at most, distinct identifiers): block axioms of contracts/c07.py",
                  "sorted(kwargs.items()) enumerates each keyword once"],
-        assumptions=["plain functions in the unbounded proof; bound methods (self prepended) and functools.partial objects only through the bounded oracle",
+        assumptions=["unbounded proof for plain functions and for bound methods whose first parameter is positional; functools.partial objects, methods with a *args first parameter and functools.wraps wrappers (K15) only through the bounded oracle",
                      "ignore list: distinct names that are keys of the full result"],
         undecided_clauses=[],
     ),
@@ -73,7 +73,7 @@ REGISTRY = {
                  "monitor rule: state written only under Parallel._lock with the lock invariant re-established before each release satisfies it in every interleaving (meta-theorem)",
                  "queue.Queue FIFO, collections.deque, itertools.islice semantics", "function summaries used between the four parts of the pack mirror contracts proved in another part (link by inspection)"],
         assumptions=["ordered mode for the in-order claims", "fixed batch size for the look-ahead bound", "BatchedCalls.__call__ / _get_sequential_output are shape-bounded (3 items)"],
-        undecided_clauses=["fairness / termination of the retrieval loop; behaviour of third-party backends", "generator_unordered ordering is only covered by _register_outcome's exactly-once enqueue"],
+        undecided_clauses=["fairness / termination of the retrieval loop; behaviour of third-party backends", "generator_unordered: _retrieve[unordered] proves that each finished batch is delivered exactly once, in queue order; that the queue order IS the completion order rests on _register_outcome's enqueue under the lock (part 1)"],
     ),
     "C03": dict(
         packs=["c03", "c13"], level="proof",
@@ -105,8 +105,8 @@ REGISTRY = {
         trusted=["POSIX model of contracts/store.py: atomic rename, a crash leaves a prefix of the issued effects, no reordering by the disk (fsync out of scope)",
                  "abstract store contracts of contracts/mem.py (they are the summaries of the store pack's contracts; the link is by inspection, not mechanised)"],
         assumptions=["directory components (function id, argument hash) are never named output.pkl / metadata.json", "OS errors other than EEXIST/ENOENT (permissions, full disk) are out of scope",
-                     "a PicklingError inside dump leaves a closed but unloadable output.pkl under the final name (observed, deliberate in joblib until 1.5); the load then fails and the value is recomputed (C14 path)"],
-        undecided_clauses=["reduce_size / Memory.clear crash points: eviction only removes (rmtree prefix states satisfy CI); K3 is the one crash state that breaks the store invariant"],
+                     "a write error swallowed inside the with-block of a writer leaves the file torn (never 'complete'); shutil.rmtree that returns has removed the whole subtree"],
+        undecided_clauses=["reduce_size crash points: eviction only removes (every rmtree prefix state satisfies CI); Memory.clear / invalidation: results never outlive their code file (proved for clear_path[sequential])"],
     ),
     "C11": dict(
         packs=["store", "mem", "c18"], level="proof",
@@ -115,9 +115,9 @@ REGISTRY = {
                       bound="3 threads + 3 processes x 200 operations on one cache directory (calls with 7 argument values, 8% reduce_size, 3% clear); "
                             "all values checked, every output.pkl left behind loaded")],
         trusted=["interference model: between two file-system primitives of one user the whole file system may change arbitrarily except that this user's own temporaries "
-                 "(its thread id and pid) are untouched and every visible result file is complete (the guarantee proved for every writer in this pack)",
+                 "(its thread id and pid) are never created or rewritten by others - they may vanish, removed with their entry by a concurrent clear()/reduce_size() - and every visible result file is complete (the guarantee proved for every writer in this pack); os.makedirs is not atomic across levels",
                  "an open file descriptor keeps reading the old file after replace/unlink (POSIX)"],
-        assumptions=["atomic steps are the file-system primitives; rmtree and in-place rewriting are sequences of steps", "mmap_mode is None",
+        assumptions=["atomic steps are the file-system primitives; rmtree and in-place rewriting are sequences of steps", "mmap_mode: only the re-load in MemorizedFunc._call is covered (variant mmap_mode)",
                      "get_items is under contract in pack c18 (no exception escapes whichever getatime/getsize fails; shape-bounded to <= 2 listed files per entry); enforce_store_limits swallows OSError of each removal (pack c18)"],
         undecided_clauses=["no schedule is enumerated: the adversary is the rely relation (any number of other users)",
                            "two racing clearers may see FileNotFoundError from rm_subdirs (outside the property: it is about calls of cached functions)"],
@@ -131,7 +131,7 @@ REGISTRY = {
                           bound="every signature with <= 4 parameters x every call shape (31441 calls, 3591 accepted by Python)")],
         trusted=["abstract store contracts (contracts/mem.py docstring)", "KEY = hash(filter_args(...)) identifies the bound arguments outside the ignore list (filter_args: C07 contract; hashing: C08)",
                  "the cached function is pure and get_func_code returns its current source"],
-        assumptions=["mmap_mode is None", "single process between two store calls (concurrency: C11)"],
+        assumptions=["mmap_mode is None except for MemorizedFunc._call[mmap_mode]", "single process between two store calls (concurrency: C11)"],
         undecided_clauses=["compression settings do not enter the logic under contract (they are passed through to numpy_pickle.dump, C03)"],
     ),
     "C06": dict(
@@ -142,7 +142,7 @@ REGISTRY = {
                             "missing or torn metadata and output, leftover temporaries, with and without expires_after); extract_first_line on every prefix"), dict(name="filter_args-vs-interpreter", script="replay/c07.py", args=["4"],
                           bound="every signature with <= 4 parameters x every call shape: acceptance and equal canonical form of equivalent calls")],
         trusted=["abstract store contracts", "equal bound arguments give equal KEY (C07 bounded oracle, C08)"],
-        assumptions=["'every call that the plain function accepts is accepted by the wrapper' rests on the filter_args oracle (bounded, <= 4 parameters)"],
+        assumptions=["'every call that the plain function accepts is accepted by the wrapper': filter_args accepts every call Python accepts (unbounded proof, plain functions and bound methods) and the forwarding entry points declare self positional-only (structural obligations); functools.partial objects and functools.wraps wrappers (K15): bounded oracle / recorded finding"],
         undecided_clauses=[],
     ),
     "C12": dict(
